@@ -4,6 +4,7 @@ import (
 	"fmt"
 	"go/token"
 	"go/types"
+	"os"
 	"sort"
 	"strings"
 
@@ -1386,4 +1387,106 @@ func blockDriven(fn *ssa.Function) bool {
 		}
 	}
 	return false
+}
+
+// bceCrossCheck (thorough tier): every bounds check the Go compiler could not eliminate in a hand-written reader-side
+// file must be explained by the inventory: a may-panic site on that line, a call on that line to a repository function
+// that (transitively) contains such a site (inlined), or a call on that line into dependency code (trusted base, listed).
+// The compiler report is produced by `go build -gcflags=…=-d=ssa/check_bce/debug=1` (static; nothing is executed).
+func (c *Ctx) bceCrossCheck(reportPath string, sites []panicSite) {
+	r := c.R
+	data, err := os.ReadFile(reportPath)
+	if err != nil {
+		r.Break("cannot read the compiler's bounds-check report: %v", err)
+		return
+	}
+	siteAt := map[string]bool{}
+	hasSite := map[*ssa.Function]bool{}
+	for _, s := range sites {
+		if s.kind == "slice" || s.kind == "index" || s.kind == "depcall" {
+			p := c.P.Fset.Position(s.ins.Pos())
+			siteAt[fmt.Sprintf("%s:%d", c.P.FileOf(s.ins.Pos()), p.Line)] = true
+			hasSite[s.fn] = true
+		}
+	}
+	// transitive: repo functions that statically call a function with a site
+	for changed := true; changed; {
+		changed = false
+		for _, fn := range c.G.Funcs() {
+			if hasSite[fn] {
+				continue
+			}
+			for _, e := range c.G.Out[fn] {
+				if e.Kind == "static" && hasSite[e.Callee] {
+					hasSite[fn] = true
+					changed = true
+				}
+			}
+		}
+	}
+	callsAt := map[string][]ssa.CallInstruction{}
+	for _, fn := range c.G.Funcs() {
+		if !c.inC13Scope(fn) {
+			continue
+		}
+		for _, ci := range core.CallsIn(fn) {
+			p := c.P.Fset.Position(ci.Pos())
+			k := fmt.Sprintf("%s:%d", c.P.FileOf(ci.Pos()), p.Line)
+			callsAt[k] = append(callsAt[k], ci)
+		}
+	}
+	inScopeFile := map[string]bool{}
+	for _, fn := range c.G.Funcs() {
+		if c.inC13Scope(fn) {
+			inScopeFile[c.P.FileOf(fn.Pos())] = true
+		}
+	}
+	n, nsite, ninl, ndep := 0, 0, 0, 0
+	depCallees := map[string]int{}
+	seen := map[string]bool{}
+	for _, line := range strings.Split(string(data), "\n") {
+		line = strings.TrimPrefix(strings.TrimSpace(line), "./")
+		if !strings.Contains(line, ": Found Is") {
+			continue
+		}
+		parts := strings.SplitN(line, ":", 4)
+		if len(parts) < 4 || !inScopeFile[parts[0]] {
+			continue
+		}
+		k := parts[0] + ":" + parts[1]
+		if seen[k] {
+			continue
+		}
+		seen[k] = true
+		n++
+		switch {
+		case siteAt[k]:
+			nsite++
+		default:
+			explained := false
+			for _, ci := range callsAt[k] {
+				f := ci.Common().StaticCallee()
+				if f == nil {
+					continue
+				}
+				if _, isRepo := c.P.PkgOf(f); isRepo && !c.P.IsGenerated(f.Pos()) {
+					if hasSite[f] {
+						ninl++
+						explained = true
+						break
+					}
+					continue
+				}
+				depCallees[shorten(strings.ReplaceAll(f.String(), core.Module+"/", ""))]++
+				ndep++
+				explained = true
+				break
+			}
+			if !explained {
+				r.Undecided("R13.3", "bce:"+k, k, "the compiler keeps a bounds check on this line that the may-panic inventory does not account for (enumerator incomplete?)")
+			}
+		}
+	}
+	r.Extra["bce_cross_check"] = map[string]any{"compiler_reported_lines": n, "matched_inventory_site": nsite, "inlined_repository_function_with_site": ninl, "inlined_dependency_code": ndep, "dependency_callees": depCallees}
+	r.Floor("R13.3/bce-lines", n, 20)
 }
